@@ -31,6 +31,8 @@ func runC06(c *Ctx, r *Report) {
 	c06DroppedErrors(c, r)
 	c06FileOwner(c, r)
 	c06Expansion(c, r)
+	c06WalkDecision(c, r, "C06-d/walk-decision")
+	c06WholeGzipStream(c, r, "C06-g/whole-gzip-stream")
 	c06Stdin(c, r)
 	c03ExitStatusAs(c, r, "C06-f")
 }
